@@ -13,6 +13,9 @@ import (
 
 func init() { Registry["C05"] = C05 }
 
+// "<"+Name+">" or "</"+Name+">", the opening chosen by a merge or written out per case
+var reTagPlaceholder = regexp.MustCompile(`^\(\((μ\("<"\|"</"\)|μ\("</"\|"<"\)|"<"|"</") \+ \$0\.Name\) \+ ">"\)$`)
+
 var placeholderAttrs = map[string]bool{"class": true, "data-type": true, "data-id": true}
 
 // C05: distilled HTML is inert.
@@ -42,7 +45,7 @@ func C05(p *core.Program, r *core.Report) {
 				// text view: no markup at all
 				r.Add("S1", key, p.Pos(o.ret.Pos()), true, "text rendering, no markup")
 			default:
-				ok := o.value == `""` || (o.typ == "Tag" && (o.value == `(("<" + $0.Name) + ">")` || o.value == `(("</" + $0.Name) + ">")`))
+				ok := o.value == `""` || (o.typ == "Tag" && reTagPlaceholder.MatchString(o.value))
 				r.Add("S1", key, p.Pos(o.ret.Pos()), ok, "markup that does not come from the DOM serializer must be empty or a bare tag placeholder: "+o.value)
 			}
 		}
@@ -55,10 +58,8 @@ func C05(p *core.Program, r *core.Report) {
 		c := core.NewCanon(p)
 		okAll := true
 		var wrote []string
-		for _, call := range core.Calls(dg, func(ci ssa.CallInstruction) bool {
-			return core.IsCallTo(ci, "(*bytes.Buffer).WriteString", "(*strings.Builder).WriteString")
-		}) {
-			v := c.Of(call.Common().Args[1])
+		for _, call := range core.Calls(dg, func(ci ssa.CallInstruction) bool { return isSinkWrite(ci) }) {
+			v, _ := sinkWritten(call, c)
 			wrote = append(wrote, v)
 			if v != `"\n"` && !strings.HasPrefix(v, "iface.GenerateOutput(") {
 				okAll = false
